@@ -6,7 +6,7 @@
 import json, os, re, shutil, subprocess, sys, time
 pid = sys.argv[1]
 name = sys.argv[2] if len(sys.argv) > 2 else pid
-src = "/tmp/seed/%s" % (sys.argv[3] if len(sys.argv) > 3 else pid)
+src = sys.argv[3] if len(sys.argv) > 3 else "/tmp/seed/%s" % pid
 wt = src + "/repo"
 out = src + "/out"
 ENV = dict(os.environ, CARGO_NET_OFFLINE="true")
